@@ -712,7 +712,8 @@ impl<R: RefCounter, PR: PathRefCounter, H: Header> Memory<R, PR, H> {
           lock_meta: opts.lock_meta(),
         };
 
-        if this.lock_meta {
+        // without the unified layout the header is not in the memory map, there is nothing to lock.
+        if this.lock_meta && unify {
           this.mlock(header_ptr_offset, mem::size_of::<H>())?;
         }
 
